@@ -7,12 +7,13 @@ package fuzzfam
 // allocation meter, and for inputs that make Extract fail it runs a real Scanner.Scan over a
 // tree holding the offending file next to healthy files of two other extractors.
 //
-// The test process is a supervisor: the campaign runs in a child process of the same binary
-// which journals the case it is about to execute, so that a fatal runtime error (stack
-// exhaustion, out of memory, a panic on another goroutine — none of which recover() can catch)
-// is attributed to its input, re-confirmed in isolation and reported as a violation.
+// Extract itself runs in a child process of the same binary (see "Execution server" below): a
+// hang is ended by killing the child, and a fatal runtime error (stack exhaustion, out of memory,
+// a panic on another goroutine — none of which recover() can catch) is attributed to its input,
+// re-confirmed in a fresh process and reported as a violation.
 
 import (
+	"bufio"
 	"bytes"
 	"crypto/sha256"
 	"encoding/base64"
@@ -20,13 +21,11 @@ import (
 	"encoding/json"
 	"errors"
 	"fmt"
-	"io"
 	"os"
 	"os/exec"
 	"path/filepath"
 	"runtime/debug"
 	"runtime/pprof"
-	"sort"
 	"strings"
 	"sync"
 	"sync/atomic"
@@ -48,9 +47,10 @@ const classRPMCycle = "os/rpm|bdb_overflow_cycle_timeout"
 // every extractor that decodes YAML.
 const classYAMLDup = "c02.yaml_duplicate_keys_quadratic"
 
-// classPEAlloc: saferwall/pe sizes its CLR metadata tables (MethodDef, MemberRef, Param ...) by
-// row counts read from the file without checking them against the file size.
-const classPEAlloc = "dotnet/pe|overrun:alloc"
+// classPE: saferwall/pe sizes its CLR metadata tables (MethodDef, MemberRef, Param ...) by row
+// counts read from the file without checking them against the file size: gigabytes are allocated
+// for a 5 KB file, and dotnetpe.tableContentToPackages then walks the phantom rows for minutes.
+const classPE = "dotnet/pe|overrun:clr_row_counts"
 
 // classBplistCycle: groob/plist follows binary-plist object references without a cycle check.
 const classBplistCycle = "os/macapps|fatal:bplist_reference_cycle"
@@ -316,6 +316,219 @@ func genC02(t *rapid.T) c02Case {
 }
 
 // ---------------------------------------------------------------------------------------
+// Execution server: Extract runs in a child process of this binary, one case at a time. A hang
+// is ended by killing the child, a fatal runtime error (stack exhaustion, out of memory, a panic
+// on a goroutine the extractor started — none of which recover() can catch) only takes the child
+// down, and nothing a case leaves behind (spinning goroutines, garbage) distorts the
+// measurements of the next one.
+
+type execReply struct {
+	ID       int    `json:"id"`
+	Pkgs     int    `json:"pkgs"`
+	HasErr   bool   `json:"has_err"`
+	Err      string `json:"err,omitempty"`
+	Panicked bool   `json:"panicked,omitempty"`
+	PanicVal string `json:"panic_val,omitempty"`
+	Site     string `json:"site,omitempty"`
+	Stack    string `json:"stack,omitempty"`
+	DurNS    int64  `json:"dur_ns"`
+	Alloc    uint64 `json:"alloc"`
+	Contain  string `json:"contain,omitempty"` // containment verdict ("" = held or not checked)
+	Harness  string `json:"harness,omitempty"` // harness-side problem
+}
+
+type execRequest struct {
+	ID   int     `json:"id"`
+	Case c02Case `json:"case"`
+}
+
+// TestC02_server is the child side; it does nothing unless C02_SERVER is set.
+func TestC02_server(t *testing.T) {
+	if os.Getenv("C02_SERVER") == "" {
+		t.Skip("only used as a child process")
+	}
+	if os.Getenv("C02_RPM_SHORT") != "" {
+		rpmShortTimeout.Store(true)
+	}
+	req := bufio.NewReaderSize(os.NewFile(3, "requests"), 1<<20)
+	rep := os.NewFile(4, "replies")
+	defer purgeTrees()
+	for {
+		line, err := req.ReadBytes('\n')
+		if err != nil {
+			return
+		}
+		var r execRequest
+		if json.Unmarshal(line, &r) != nil {
+			continue
+		}
+		out, _ := json.Marshal(serveCase(r))
+		if _, err := rep.Write(append(out, '\n')); err != nil {
+			return
+		}
+	}
+}
+
+func serveCase(r execRequest) execReply {
+	c := r.Case
+	rep := execReply{ID: r.ID}
+	e := Lookup(c.Extractor)
+	if e == nil {
+		rep.Harness = fmt.Sprintf("unknown extractor %q", c.Extractor)
+		return rep
+	}
+	data, err := c.input()
+	if err != nil {
+		rep.Harness = err.Error()
+		return rep
+	}
+	res, err := runExtract(e, c.Base, c.Path, data, 10*time.Minute) // the parent owns the deadline
+	if err != nil {
+		rep.Harness = err.Error()
+		return rep
+	}
+	rep.Pkgs, rep.Panicked, rep.PanicVal, rep.Site, rep.Stack = res.Pkgs, res.Panicked, res.PanicVal, res.Site, res.Stack
+	rep.DurNS, rep.Alloc = int64(res.Dur), res.Alloc
+	if res.Err != nil {
+		rep.HasErr, rep.Err = true, res.Err.Error()
+	}
+	if c.Contain && res.Err != nil && !res.Panicked && len(c.Healthy) == 2 && res.Dur <= wallBudget && res.Alloc <= allocBudget {
+		if cerr := checkContainment(e, c, data); cerr != nil {
+			rep.Contain = cerr.Error()
+		} else {
+			rep.Contain = "held"
+		}
+	}
+	return rep
+}
+
+type execServer struct {
+	cmd     *exec.Cmd
+	reqW    *os.File
+	replies chan execReply
+	gone    chan struct{}
+	tail    *tailBuffer
+	nextID  int
+}
+
+var (
+	srvMu sync.Mutex
+	srv   *execServer
+)
+
+func startServer() (*execServer, error) {
+	reqR, reqW, err := os.Pipe()
+	if err != nil {
+		return nil, err
+	}
+	repR, repW, err := os.Pipe()
+	if err != nil {
+		return nil, err
+	}
+	cmd := exec.Command(os.Args[0], "-test.run", "^TestC02_server$", "-test.count", "1", "-test.timeout", "0")
+	cmd.Env = append(os.Environ(), "C02_SERVER=1", "VERIF_STATS_OUT=", "VERIF_REPLAY=")
+	if rpmShortTimeout.Load() {
+		cmd.Env = append(cmd.Env, "C02_RPM_SHORT=1")
+	}
+	cmd.ExtraFiles = []*os.File{reqR, repW}
+	s := &execServer{cmd: cmd, reqW: reqW, replies: make(chan execReply, 1), gone: make(chan struct{}), tail: &tailBuffer{}}
+	cmd.Stdout, cmd.Stderr = s.tail, s.tail
+	if err := cmd.Start(); err != nil {
+		return nil, err
+	}
+	reqR.Close()
+	repW.Close()
+	go func() {
+		defer close(s.gone)
+		rd := bufio.NewReaderSize(repR, 1<<20)
+		for {
+			line, err := rd.ReadBytes('\n')
+			if err != nil {
+				repR.Close()
+				return
+			}
+			var r execReply
+			if json.Unmarshal(line, &r) == nil {
+				s.replies <- r
+			}
+		}
+	}()
+	return s, nil
+}
+
+func (s *execServer) stop() {
+	_ = s.reqW.Close()
+	_ = s.cmd.Process.Kill()
+	_, _ = s.cmd.Process.Wait()
+}
+
+func stopServer() {
+	srvMu.Lock()
+	defer srvMu.Unlock()
+	if srv != nil {
+		srv.stop()
+		srv = nil
+	}
+}
+
+type execStatus int
+
+const (
+	execOK execStatus = iota
+	execTimeout
+	execDied
+)
+
+// execute runs one case in the server; on a timeout or a dead server the server is replaced.
+func execute(c c02Case, deadline time.Duration) (execReply, execStatus, string, error) {
+	srvMu.Lock()
+	defer srvMu.Unlock()
+	if srv == nil {
+		s, err := startServer()
+		if err != nil {
+			return execReply{}, execDied, "", fmt.Errorf("harness: cannot start the execution server: %w", err)
+		}
+		srv = s
+	}
+	s := srv
+	s.nextID++
+	b, _ := json.Marshal(execRequest{ID: s.nextID, Case: c})
+	if _, err := s.reqW.Write(append(b, '\n')); err != nil {
+		tail := s.tail.String()
+		s.stop()
+		srv = nil
+		return execReply{}, execDied, tail, nil
+	}
+	timer := time.NewTimer(deadline)
+	defer timer.Stop()
+	for {
+		select {
+		case r := <-s.replies:
+			if r.ID != s.nextID {
+				continue
+			}
+			return r, execOK, "", nil
+		case <-s.gone:
+			select {
+			case r := <-s.replies:
+				if r.ID == s.nextID {
+					return r, execOK, "", nil
+				}
+			default:
+			}
+			tail := s.tail.String()
+			s.stop()
+			srv = nil
+			return execReply{}, execDied, tail, nil
+		case <-timer.C:
+			s.stop()
+			srv = nil
+			return execReply{}, execTimeout, "", nil
+		}
+	}
+}
+
+// ---------------------------------------------------------------------------------------
 // Property.
 
 var (
@@ -366,13 +579,15 @@ func isWitness(c c02Case) bool {
 // generating is set by the first generator call: from then on cases come from rapid.
 var generating atomic.Bool
 
-func journal(c c02Case) {
-	p := os.Getenv("C02_JOURNAL")
-	if p == "" {
+func explorePrint(kind, class, detail string, c c02Case) {
+	exploreMu.Lock()
+	defer exploreMu.Unlock()
+	if explored[kind+class] {
 		return
 	}
-	b, _ := json.Marshal(c)
-	_ = os.WriteFile(p, b, 0o644)
+	explored[kind+class] = true
+	cj, _ := json.Marshal(c)
+	fmt.Printf("EXPLORE %s %s: %s\n  case: %s\n", kind, class, detail, cj)
 }
 
 func propC02(c c02Case) (ev.Outcome, error) {
@@ -390,63 +605,109 @@ func propC02(c c02Case) (ev.Outcome, error) {
 		return ev.Outcome{Classes: []string{"path_not_required"}}, nil
 	}
 	witness := isWitness(c)
+	explore := os.Getenv("C02_EXPLORE") != ""
 	sum := sha256.Sum256(data)
 	out := ev.Outcome{Key: c.Extractor + "\x00" + c.Path + "\x00" + hex.EncodeToString(sum[:])}
-	if c.Extractor == "os/macapps" && bplistCycle(data) && os.Getenv("C02_ISOLATED") == "" {
-		// would end in a fatal stack overflow of this process: decided in a child process
-		out.Classes = []string{"ext:" + c.Extractor + ":fatal_candidate", "result:fatal_candidate"}
+	for _, m := range c.Muts {
+		out.Classes = append(out.Classes, "mut:"+m.Op)
+	}
+	result := func(res string) {
+		out.Classes = append(out.Classes, "ext:"+c.Extractor+":"+res, "result:"+res)
+	}
+
+	if c.Extractor == "os/macapps" && bplistCycle(data) {
+		// spins for minutes and then dies of stack exhaustion: decided in a process of its own
+		result("fatal_candidate")
 		out.NonTrivial = true
 		if col.IsKnown(classBplistCycle) && !witness {
 			col.Excluded(classBplistCycle)
 			return out, nil
 		}
-		// an endless recursion hits any stack limit: 4 MiB (the detector above only lets real cycles get here) is reached in seconds,
-		// the default 1 GiB only after many minutes of spinning
+		// an endless recursion hits any stack limit: 4 MiB (the detector only lets real cycles
+		// get here) is reached in seconds, the default 1 GiB after many minutes of spinning
 		_, died, tail := runIsolated(c, "C02_MAXSTACK_MB=4")
 		if died {
+			if explore {
+				explorePrint("fatal", classBplistCycle, "stack overflow", c)
+				return out, nil
+			}
 			return out, fmt.Errorf("Extract of %s on %s (%d bytes, binary plist with a reference cycle) kills the process with a fatal runtime error:\n%s", c.Extractor, c.Path, len(data), tail)
 		}
 		return out, nil
 	}
-	journal(c)
-	limit := wallBudget
-	explore := os.Getenv("C02_EXPLORE") != ""
-	if explore {
-		limit = 4 * time.Second
+
+	deadline := wallBudget + 2*time.Second
+	switch {
+	case explore:
+		deadline = 4 * time.Second
+	case c.Extractor == "dotnet/pe" && col.IsKnown(classPE) && !witness:
+		deadline = 3 * time.Second // known finding: count and continue without paying the full budget
 	}
-	r, err := runExtract(e, c.Base, c.Path, data, limit)
+	r, status, tail, err := execute(c, deadline)
 	if err != nil {
-		return ev.Outcome{}, err
+		return out, err
 	}
+	switch status {
+	case execDied:
+		result("fatal")
+		out.NonTrivial = true
+		_, died, isoTail := runIsolated(c)
+		if !died {
+			col.Note("execution server died on %s %s but the case does not kill an isolated process (inconclusive, not a violation); server output: %.300s", c.Extractor, c.Path, tail)
+			out.Classes = append(out.Classes, "fatal_unconfirmed")
+			return out, nil
+		}
+		class := siteClass(c.Extractor, "fatal:"+fatalSite(isoTail))
+		if explore {
+			explorePrint("fatal", class, isoTail[:min(len(isoTail), 300)], c)
+			return out, nil
+		}
+		if col.IsKnown(class) && !witness {
+			col.Excluded(class)
+			return out, nil
+		}
+		return out, fmt.Errorf("Extract of %s on %s (%d bytes) kills the process with a fatal runtime error (not recoverable: it aborts the whole scan); reproduced in isolation:\n%s", c.Extractor, c.Path, len(data), isoTail)
+	case execTimeout:
+		result("overrun")
+		out.NonTrivial = true
+		if explore {
+			explorePrint("overrun", c.Extractor, fmt.Sprintf("no answer within %v, %d bytes", deadline, len(data)), c)
+			return out, nil
+		}
+		if c.Extractor == "dotnet/pe" && col.IsKnown(classPE) && !witness {
+			col.Excluded(classPE)
+			return out, nil
+		}
+		confirmed, detail := confirmIsolated(c)
+		if confirmed {
+			return out, fmt.Errorf("Extract of %s does not return within %v on %s (%d bytes); confirmed in isolation: %s", c.Extractor, wallBudget, c.Path, len(data), detail)
+		}
+		col.Note("time overrun not reproduced in isolation (inconclusive, not a violation): %s %s: %s", c.Extractor, c.Path, detail)
+		out.Classes = append(out.Classes, "overrun_unconfirmed")
+		return out, nil
+	}
+	if r.Harness != "" {
+		return out, fmt.Errorf("harness: %s", r.Harness)
+	}
+	dur := time.Duration(r.DurNS)
 	res := "ok_empty"
 	switch {
 	case r.Panicked:
 		res = "panic"
-	case r.TimedOut:
-		res = "overrun"
-	case r.Err != nil && r.Pkgs > 0:
+	case r.HasErr && r.Pkgs > 0:
 		res = "error_with_packages"
-	case r.Err != nil:
+	case r.HasErr:
 		res = "error"
 	case r.Pkgs > 0:
 		res = "ok_packages"
 	}
-	out.Classes = []string{"ext:" + c.Extractor + ":" + res, "result:" + res}
-	for _, m := range c.Muts {
-		out.Classes = append(out.Classes, "mut:"+m.Op)
-	}
-	out.NonTrivial = r.Panicked || r.Err != nil || r.Pkgs > 0
+	result(res)
+	out.NonTrivial = r.Panicked || r.HasErr || r.Pkgs > 0
 
 	if r.Panicked {
 		class := siteClass(c.Extractor, r.Site)
-		if os.Getenv("C02_EXPLORE") != "" {
-			exploreMu.Lock()
-			if !explored[class] {
-				explored[class] = true
-				cj, _ := json.Marshal(c)
-				fmt.Printf("EXPLORE panic %s: %s\n  case: %s\n", class, r.PanicVal, cj)
-			}
-			exploreMu.Unlock()
+		if explore {
+			explorePrint("panic", class, r.PanicVal, c)
 			return out, nil
 		}
 		if col.IsKnown(class) && !witness {
@@ -455,28 +716,23 @@ func propC02(c c02Case) (ev.Outcome, error) {
 		}
 		return out, fmt.Errorf("Extract of %s panics at %s on %s (%d bytes): %s\n%s", c.Extractor, r.Site, c.Path, len(data), r.PanicVal, ev.TrimStack([]byte(r.Stack)))
 	}
-	if rpmShortTimeout.Load() && c.Extractor == "os/rpm" && r.Err != nil && strings.Contains(r.Err.Error(), "timed out parsing hash page") {
+	if rpmShortTimeout.Load() && c.Extractor == "os/rpm" && r.HasErr && strings.Contains(r.Err, "timed out parsing hash page") {
 		if witness {
-			return out, fmt.Errorf("Extract of os/rpm on %s (%d bytes) follows a cyclic Berkeley DB overflow-page chain until its timeout fires (300 ms in this harness, 5 min by default), growing the value by one page per round: %v (allocated %d MiB in %v)", c.Path, len(data), r.Err, r.Alloc>>20, r.Dur.Round(time.Millisecond))
+			return out, fmt.Errorf("Extract of os/rpm on %s (%d bytes) follows a cyclic Berkeley DB overflow-page chain until its timeout fires (300 ms in this harness, 5 min by default), growing the value by one page per round: %s (allocated %d MiB in %v)", c.Path, len(data), r.Err, r.Alloc>>20, dur.Round(time.Millisecond))
 		}
 		col.Excluded(classRPMCycle)
 		out.Classes = append(out.Classes, "rpm_cycle_excluded")
 		return out, nil
 	}
-	if c.Extractor == "dotnet/pe" && !r.TimedOut && r.Dur <= wallBudget && r.Alloc > allocBudget && col.IsKnown(classPEAlloc) && !witness && !explore {
-		col.Excluded(classPEAlloc)
-		out.Classes = append(out.Classes, "pe_alloc_excluded")
-		return out, nil
-	}
-	if explore && (r.TimedOut || r.Alloc > allocBudget) {
-		cj, _ := json.Marshal(c)
-		fmt.Printf("EXPLORE overrun %s: wall %v alloc %d MiB len %d\n  case: %s\n", c.Extractor, r.Dur, r.Alloc>>20, len(data), cj)
-		return out, nil
-	}
-	if r.TimedOut || r.Dur > wallBudget || r.Alloc > allocBudget {
-		what := fmt.Sprintf("wall %v, allocated %d MiB (budget %v / %d MiB)", r.Dur.Round(time.Millisecond), r.Alloc>>20, wallBudget, allocBudget>>20)
-		if os.Getenv("C02_ISOLATED") != "" {
-			return out, fmt.Errorf("Extract of %s exceeds the budget on %s (%d bytes): %s", c.Extractor, c.Path, len(data), what)
+	if dur > wallBudget || r.Alloc > allocBudget {
+		what := fmt.Sprintf("wall %v, allocated %d MiB (budget %v / %d MiB)", dur.Round(time.Millisecond), r.Alloc>>20, wallBudget, allocBudget>>20)
+		if explore {
+			explorePrint("overrun", c.Extractor, what, c)
+			return out, nil
+		}
+		if c.Extractor == "dotnet/pe" && col.IsKnown(classPE) && !witness {
+			col.Excluded(classPE)
+			return out, nil
 		}
 		confirmed, detail := confirmIsolated(c)
 		if confirmed {
@@ -486,10 +742,10 @@ func propC02(c c02Case) (ev.Outcome, error) {
 		out.Classes = append(out.Classes, "overrun_unconfirmed")
 		return out, nil
 	}
-	if c.Contain && r.Err != nil && len(c.Healthy) == 2 {
+	if r.Contain != "" {
 		out.Classes = append(out.Classes, "containment_scan")
-		if err := checkContainment(e, c, data); err != nil {
-			return out, err
+		if r.Contain != "held" {
+			return out, errors.New(r.Contain)
 		}
 	}
 	return out, nil
@@ -563,6 +819,42 @@ func checkContainment(e *extInfo, c c02Case, data []byte) error {
 	return nil
 }
 
+// fatalSite names the place of a fatal runtime error from the crash output of a process: the
+// innermost function of the repository on the crashing goroutine's stack or, when the goroutine
+// was started by a dependency, its innermost non-runtime function.
+func fatalSite(out string) string {
+	i := strings.Index(out, "\ngoroutine ")
+	if i < 0 {
+		return "(unknown)"
+	}
+	first := ""
+	for _, l := range strings.Split(out[i+1:], "\n")[1:] {
+		if l == "" {
+			break // end of the first goroutine block
+		}
+		if strings.HasPrefix(l, "\t") || strings.HasPrefix(l, "created by ") {
+			continue
+		}
+		fn := l
+		if j := strings.LastIndex(fn, "("); j > 0 {
+			fn = fn[:j]
+		}
+		if strings.HasPrefix(fn, "runtime.") || strings.HasPrefix(fn, "panic") || strings.HasPrefix(fn, "syscall.") || strings.HasPrefix(fn, "internal/") || strings.HasPrefix(fn, "os.") {
+			continue
+		}
+		if strings.HasPrefix(fn, modulePath) {
+			return strings.TrimPrefix(fn, modulePath)
+		}
+		if first == "" {
+			first = fn
+		}
+	}
+	if first == "" {
+		return "(unknown)"
+	}
+	return first
+}
+
 // ---------------------------------------------------------------------------------------
 // Isolation: re-run one case in a fresh process.
 
@@ -575,8 +867,8 @@ type isoResult struct {
 	Fail     string `json:"fail"`
 }
 
-// runIsolated executes the case in a child process. died is true when the child ended without
-// delivering a result (fatal runtime error, killed); tail is the end of its output.
+// runIsolated executes the case in a child process of its own. died is true when the child ended
+// without delivering a result (fatal runtime error, killed); tail is the end of its output.
 func runIsolated(c c02Case, extraEnv ...string) (res isoResult, died bool, tail string) {
 	dir, err := os.MkdirTemp(scratchBase(), "c02iso-")
 	if err != nil {
@@ -587,7 +879,10 @@ func runIsolated(c c02Case, extraEnv ...string) (res isoResult, died bool, tail 
 	b, _ := json.Marshal(c)
 	_ = os.WriteFile(cf, b, 0o644)
 	cmd := exec.Command(os.Args[0], "-test.run", "^TestC02_isolated$", "-test.count", "1", "-test.timeout", "120s")
-	cmd.Env = append(os.Environ(), "C02_ISOLATED="+cf, "C02_WORKER=1", "C02_JOURNAL=", "VERIF_STATS_OUT=", "VERIF_REPLAY=", "GOMEMLIMIT=8GiB")
+	cmd.Env = append(os.Environ(), "C02_ISOLATED="+cf, "VERIF_STATS_OUT=", "VERIF_REPLAY=", "GOMEMLIMIT=8GiB")
+	if rpmShortTimeout.Load() {
+		cmd.Env = append(cmd.Env, "C02_RPM_SHORT=1")
+	}
 	cmd.Env = append(cmd.Env, extraEnv...)
 	var buf bytes.Buffer
 	cmd.Stdout, cmd.Stderr = &buf, &buf
@@ -634,6 +929,9 @@ func TestC02_isolated(t *testing.T) {
 	if cf == "" {
 		t.Skip("only used as a child process")
 	}
+	if os.Getenv("C02_RPM_SHORT") != "" {
+		rpmShortTimeout.Store(true)
+	}
 	var c c02Case
 	b, err := os.ReadFile(cf)
 	if err != nil || json.Unmarshal(b, &c) != nil {
@@ -673,92 +971,23 @@ func c02Checks() int {
 }
 
 func TestC02_mutants(t *testing.T) {
-	if os.Getenv("C02_WORKER") == "" {
-		superviseC02(t)
-		return
-	}
 	col := c02col()
 	if col.IsKnown(classRPMCycle) || os.Getenv("C02_EXPLORE") != "" {
 		rpmShortTimeout.Store(true)
 	}
-	col.SetExtra("extractors_covered", len(Registry()))
-	col.SetExtra("healthy_neighbour_pool", len(healthy()))
-	defer purgeTrees()
-	ev.Check(t, col, c02Checks(), genC02, propC02)
-	writeOutcomeTable(col)
-}
-
-// writeOutcomeTable is a no-op placeholder for per-extractor tables: the class counters
-// "ext:<name>:<result>" in the evidence already are that table.
-func writeOutcomeTable(*ev.Collector) {}
-
-// superviseC02 runs the campaign in a child process and turns a dead child into a verdict.
-func superviseC02(t *testing.T) {
-	jf, err := os.CreateTemp(scratchBase(), "c02-journal-*.json")
-	if err != nil {
-		t.Fatalf("harness: %v", err)
-	}
-	jf.Close()
-	defer os.Remove(jf.Name())
-	args := append([]string{}, os.Args[1:]...)
-	cmd := exec.Command(os.Args[0], args...)
-	cmd.Env = append(os.Environ(), "C02_WORKER=1", "C02_JOURNAL="+jf.Name())
+	// work trees of this process and of its children live on tmpfs when there is one
 	if st, err := os.Stat("/dev/shm"); err == nil && st.IsDir() && os.Getenv("C02_FASTSCRATCH") == "" {
 		if fast, err := os.MkdirTemp("/dev/shm", "verif-c02-"); err == nil {
 			defer os.RemoveAll(fast)
-			cmd.Env = append(cmd.Env, "C02_FASTSCRATCH="+fast)
-			os.Setenv("C02_FASTSCRATCH", fast) // isolated re-runs started by the supervisor use it too
+			os.Setenv("C02_FASTSCRATCH", fast)
 			defer os.Unsetenv("C02_FASTSCRATCH")
 		}
 	}
-	var tail tailBuffer
-	cmd.Stdout = io.MultiWriter(os.Stdout, &tail)
-	cmd.Stderr = io.MultiWriter(os.Stderr, &tail)
-	runErr := cmd.Run()
-	statsOK := false
-	if sf := os.Getenv("VERIF_STATS_OUT"); sf != "" {
-		if b, err := os.ReadFile(sf); err == nil {
-			var st struct {
-				Completed  bool              `json:"completed"`
-				Violations []json.RawMessage `json:"violations"`
-			}
-			if json.Unmarshal(b, &st) == nil && (st.Completed || len(st.Violations) > 0) {
-				statsOK = true
-			}
-		}
-	} else if runErr == nil {
-		statsOK = true
-	}
-	if statsOK {
-		if runErr != nil {
-			t.Fail() // the worker filed a violation (or failed a replay); its output is already on stdout
-		}
-		return
-	}
-	var ee *exec.ExitError
-	if runErr == nil || (errors.As(runErr, &ee) && ee.ExitCode() == 1 && !strings.Contains(tail.String(), "fatal error:") && !strings.Contains(tail.String(), "goroutine ")) {
-		// ordinary test failure without statistics (e.g. not run through the driver)
-		if runErr != nil {
-			t.Fail()
-		}
-		return
-	}
-	// The worker died. Attribute the death to the journaled case and confirm it in isolation.
-	b, _ := os.ReadFile(jf.Name())
-	var c c02Case
-	if len(b) == 0 || json.Unmarshal(b, &c) != nil {
-		t.Fatalf("harness: worker died (%v) before journaling a case:\n%s", runErr, tail.String())
-	}
-	_, died, isoTail := runIsolated(c)
-	if !died {
-		t.Fatalf("inconclusive: worker died (%v) but the journaled case does not kill an isolated process:\n%s", runErr, tail.String())
-	}
-	col := c02col()
-	col.SetLeg(t.Name())
-	msg := fmt.Sprintf("Extract of %s on %s kills the process with a fatal runtime error (not recoverable, aborts the whole scan); reproduced in isolation:\n%s", c.Extractor, c.Path, isoTail)
-	col.Record(c, ev.Outcome{NonTrivial: true, Classes: []string{"result:fatal"}}, errors.New(msg))
-	col.Flush(true)
-	t.Errorf("%s", msg)
+	defer stopServer()
+	defer purgeTrees()
+	col.SetExtra("extractors_covered", len(Registry()))
+	col.SetExtra("healthy_neighbour_pool", len(healthy()))
+	ev.Check(t, col, c02Checks(), genC02, propC02)
 }
 
 type tailBuffer struct {
@@ -777,13 +1006,3 @@ func (w *tailBuffer) Write(p []byte) (int, error) {
 }
 
 func (w *tailBuffer) String() string { w.mu.Lock(); defer w.mu.Unlock(); return string(w.b) }
-
-// sortedKeys is used by exploratory helpers.
-func sortedKeys[V any](m map[string]V) []string {
-	out := make([]string, 0, len(m))
-	for k := range m {
-		out = append(out, k)
-	}
-	sort.Strings(out)
-	return out
-}
